@@ -429,6 +429,17 @@ class Effects:
             base = al if al is not None else base
         return unparse(base) == "self.stack"
 
+    def _is_bytes_value(self, e: ast.AST, fi: FuncInfo) -> bool:
+        """a value that is a bytes object by construction: the result of an exact-read helper or of stream.read"""
+        if isinstance(e, ast.Name):
+            al = self.repo.local_alias(e.id, fi)
+            return al is not None and self._is_bytes_value(al, fi)
+        if isinstance(e, ast.Call):
+            if isinstance(e.func, ast.Attribute) and e.func.attr == "read" and unparse(e.func.value).endswith("stream"):
+                return True
+            return any(self.is_exact_read(t) for t in self.repo.resolve_call(e, fi))
+        return False
+
     def _bounded(self, n: ast.AST, fi: FuncInfo, st: State) -> bool:
         if isinstance(n, ast.Constant):
             return True
@@ -819,6 +830,10 @@ class Effects:
             return out
         if isinstance(fn, ast.Name) and fn.id == "BytesIO":
             return out
+        if fname == "int.from_bytes" and c.args and self._is_bytes_value(c.args[0], fi) \
+                and all(k.arg in ("byteorder", "signed") and isinstance(k.value, ast.Constant) for k in c.keywords) \
+                and all(isinstance(a, ast.Constant) for a in c.args[1:]):
+            return out  # total on a bytes object with literal byteorder/signed
         if isinstance(fn, ast.Attribute) and last in TOTAL_METHODS:
             return out
         if isinstance(fn, ast.Attribute) and last == "get" and self._annotated_mapping(fn.value, fi):
